@@ -68,7 +68,8 @@ pub fn run(r: &Ref, proc_id: u64, threads: usize, iters: usize, seed: u64) -> Ve
                     let id = format!("p{proc_id}t{t}i{i}");
                     // identical inputs on even iterations, thread-specific ones on odd iterations
                     let salt = if i % 2 == 0 { 0 } else { 1000 * (t as u64 + 1) + i as u64 };
-                    let sizes = [0usize, 1, 2, 3, 5, 12, 17, 20];
+                    // (260 hidden messages: more blinding slots than a one-byte counter or a 256-entry table can index)
+                    let sizes = [0usize, 260, 1, 2, 3, 5, 12, 17, 20];
                     let n = sizes[(i / 4) % sizes.len()];
                     let msgs: Vec<Vec<u8>> = (0..n + 1).map(|j| prg(seed, "rng-msg", salt, j as u64, 8 + j)).collect();
                     let hdr = Some(prg(seed, "rng-hdr", salt, 0, 5));
